@@ -22,6 +22,7 @@ import (
 const revKey = "pod-template-hash"
 
 var gkVS = schema.GroupKind{Group: "networking.istio.io", Kind: "VirtualService"}
+var gkTag = schema.GroupKind{Group: "example.io", Kind: "TrafficTag"}
 var gkDR = schema.GroupKind{Group: "networking.istio.io", Kind: "DestinationRule"}
 
 // route describes what one gateway object sends to the canary Service.
@@ -49,14 +50,31 @@ func decodeIngress(ing *netv1.Ingress, canarySvc string) route {
 			}
 		}
 	}
-	if !targets || ing.Annotations["nginx.ingress.kubernetes.io/canary"] != "true" {
+	if !targets {
 		return r
 	}
-	if w, err := strconv.Atoi(ing.Annotations["nginx.ingress.kubernetes.io/canary-weight"]); err == nil {
-		r.Share = w
+	// documented canary annotations of the nginx / alb families: <prefix>/canary, /canary-weight, /canary-by-header, /canary-by-cookie
+	isCanary := false
+	for k, v := range ing.Annotations {
+		switch {
+		case strings.HasSuffix(k, "ingress.kubernetes.io/canary") && v == "true":
+			isCanary = true
+		}
 	}
-	if ing.Annotations["nginx.ingress.kubernetes.io/canary-by-header"] != "" || ing.Annotations["nginx.ingress.kubernetes.io/canary-by-cookie"] != "" {
-		r.Match = true
+	if !isCanary {
+		return r
+	}
+	for k, v := range ing.Annotations {
+		switch {
+		case strings.HasSuffix(k, "ingress.kubernetes.io/canary-weight"):
+			if w, err := strconv.Atoi(v); err == nil {
+				r.Share = w
+			}
+		case strings.HasSuffix(k, "ingress.kubernetes.io/canary-by-header") || strings.HasSuffix(k, "ingress.kubernetes.io/canary-by-cookie"):
+			if v != "" {
+				r.Match = true
+			}
+		}
 	}
 	return r
 }
@@ -75,13 +93,14 @@ func decodeHTTPRoute(hr *gatewayv1beta1.HTTPRoute, stableSvc, canarySvc string) 
 			if b.Weight != nil {
 				w = int(*b.Weight)
 			}
-			total += w
 			if string(b.Name) == canarySvc {
 				hasCanary = true
 				cw += w
+				total += w
 			}
 			if string(b.Name) == stableSvc {
 				hasStable = true
+				total += w // the split is between the stable and the canary backend; other backends are not the rollout's
 			}
 		}
 		if !hasCanary || cw == 0 {
@@ -179,6 +198,8 @@ func (o *trafficOracle) gatewayKeys() []ObjKey {
 		return []ObjKey{{GK: gkHTTPRoute, NS: ns, Name: n + "-route"}}
 	case o.sc.Traffic == "istio":
 		return []ObjKey{{GK: gkVS, NS: ns, Name: n + "-vs"}}
+	case o.sc.Traffic == "custom-cm":
+		return []ObjKey{{GK: gkTag, NS: ns, Name: n + "-tag"}}
 	}
 	return nil
 }
@@ -192,6 +213,23 @@ func (o *trafficOracle) decode(obj client.Object) route {
 	case *unstructured.Unstructured:
 		if x.GetKind() == "VirtualService" {
 			return decodeVirtualService(x, o.stableSvc, o.canarySvc)
+		}
+		if x.GetKind() == "TrafficTag" {
+			var r route
+			rules, _, _ := unstructured.NestedSlice(x.Object, "spec", "rules")
+			for _, ru := range rules {
+				if m, ok := ru.(map[string]interface{}); ok && m["to"] == o.canarySvc {
+					if p, ok := m["percent"].(int64); ok {
+						r.Share = int(p)
+					} else if f, ok := m["percent"].(float64); ok {
+						r.Share = int(f)
+					}
+				}
+			}
+			if c, found, _ := unstructured.NestedMap(x.Object, "spec", "canary"); found && c["to"] == o.canarySvc {
+				r.Match = true
+			}
+			return r
 		}
 	}
 	return route{}
@@ -248,7 +286,7 @@ func (o *trafficOracle) OnWrite(s *Sim, w *Write) {
 	// remember the user's own configuration
 	if w.Actor == "setup" || w.Actor == "user" {
 		switch w.Key.GK {
-		case gkService, gkIngress, gkHTTPRoute, gkVS, gkDR:
+		case gkService, gkIngress, gkHTTPRoute, gkVS, gkDR, gkTag:
 			if w.New != nil {
 				o.orig[w.Key] = w.New
 			}
@@ -411,7 +449,7 @@ func (o *trafficOracle) checkFirstStepPin(s *Sim, w *Write) {
 // ---- C04: no request into a void (after every write = at every crash point)
 func (o *trafficOracle) checkVoid(s *Sim, w *Write) {
 	switch w.Key.GK {
-	case gkService, gkIngress, gkHTTPRoute, gkVS, gkPod:
+	case gkService, gkIngress, gkHTTPRoute, gkVS, gkTag, gkPod:
 	default:
 		return
 	}
@@ -544,7 +582,7 @@ func (o *trafficOracle) OnEnd(s *Sim) {
 		exit = "rolled-back"
 	}
 	fam := o.sc.Family + "/" + exit
-	if s.User.ExitUnclaimed {
+	if s.User.ExitNoBR {
 		fam += "/workload-unclaimed-at-exit"
 	}
 	bad := func(what, format string, a ...interface{}) {
@@ -644,7 +682,7 @@ func (o *trafficOracle) OnEnd(s *Sim) {
 			if !reflect.DeepEqual(c.Spec, og.Spec) {
 				bad("httproute", "HTTPRoute %s differs from the user's: %s vs %s", k.Name, dumpJSON(c.Spec.Rules), dumpJSON(og.Spec.Rules))
 			}
-		case gkVS, gkDR:
+		case gkVS, gkDR, gkTag:
 			cu, ou := cur.(*unstructured.Unstructured), orig.(*unstructured.Unstructured)
 			if !reflect.DeepEqual(cu.Object["spec"], ou.Object["spec"]) || !reflect.DeepEqual(cu.GetAnnotations(), ou.GetAnnotations()) || !reflect.DeepEqual(cu.GetLabels(), ou.GetLabels()) {
 				bad("custom", "%s %s differs from the user's configuration: spec=%s annotations=%v", k.GK.Kind, k.Name, dumpJSON(cu.Object["spec"]), cu.GetAnnotations())
